@@ -27,16 +27,64 @@ impl Request {
     pub fn new(mode: Mode, attr: &TokenStream, item: &TokenStream) -> Self {
         Self {
             mode,
-            attr: attr.to_string(),
-            item: item.to_string(),
+            attr: print(attr),
+            item: print(item),
         }
     }
     pub fn id(&self) -> String {
-        let a = TokenStream::from_str(&self.attr).map(|t| canon(&t));
-        let i = TokenStream::from_str(&self.item).map(|t| canon(&t));
+        let a = lex(&self.attr).map(|t| canon(&t));
+        let i = lex(&self.item).map(|t| canon(&t));
         match (a, i) {
-            (Ok(a), Ok(i)) => digest(&format!("{:?}\u{1e}{}\u{1e}{}", self.mode, a, i)),
+            (Some(a), Some(i)) => digest(&format!("{:?}\u{1e}{}\u{1e}{}", self.mode, a, i)),
             _ => digest(&format!("{:?}\u{1e}!{}\u{1e}!{}", self.mode, self.attr, self.item)),
+        }
+    }
+    /// True if the request contains a None-delimited group (a fragment a `macro_rules!`
+    /// expansion would hand over), which plain Rust source text cannot express.
+    pub fn has_none_group(&self) -> bool {
+        self.item.contains(NG) || self.attr.contains(NG)
+    }
+    /// True if a None-delimited group sits inside attribute arguments (the macro's own or a
+    /// helper attribute's): an `$e:expr` fragment. Whether a compiler honours such a group inside
+    /// a proc macro's *output* has changed between rustc versions, so these requests are checked
+    /// with the token-level oracles only (no parse of the printed output, no engine P).
+    pub fn has_expr_none_group(&self) -> bool {
+        fn any_none(ts: TokenStream) -> bool {
+            ts.into_iter().any(|t| match t {
+                TokenTree::Group(g) => g.delimiter() == Delimiter::None || any_none(g.stream()),
+                _ => false,
+            })
+        }
+        fn in_attrs(ts: TokenStream) -> bool {
+            let v: Vec<TokenTree> = ts.into_iter().collect();
+            for (i, t) in v.iter().enumerate() {
+                if let TokenTree::Group(g) = t {
+                    let is_attr = g.delimiter() == Delimiter::Bracket
+                        && i > 0
+                        && matches!(&v[i - 1], TokenTree::Punct(p) if p.as_char() == '#' || p.as_char() == '!');
+                    if is_attr {
+                        if any_none(g.stream()) {
+                            return true;
+                        }
+                    } else if in_attrs(g.stream()) {
+                        return true;
+                    }
+                }
+            }
+            false
+        }
+        if !self.has_none_group() {
+            return false;
+        }
+        lex(&self.attr).map(any_none).unwrap_or(false) || lex(&self.item).map(in_attrs).unwrap_or(false)
+    }
+    /// The request with every None-delimited group dissolved into its contents.
+    pub fn flattened(&self) -> Request {
+        let f = |s: &str| lex(s).map(|t| flatten(t).to_string()).unwrap_or_else(|| s.to_string());
+        Request {
+            mode: self.mode,
+            attr: f(&self.attr),
+            item: f(&self.item),
         }
     }
     pub fn display(&self) -> String {
@@ -139,6 +187,76 @@ pub fn digest(s: &str) -> String {
     )
 }
 
+/// Marker for a None-delimited group in request text: `__ng(tokens)`. Such groups are what a
+/// `macro_rules!` expansion passes to a proc macro for `$x:ty` / `$x:expr` fragments; source
+/// text cannot express them, so requests carry them under this reserved identifier.
+pub const NG: &str = "__ng";
+
+
+/// Lexes request text; `__ng( .. )` becomes a None-delimited group.
 pub fn lex(s: &str) -> Option<TokenStream> {
-    TokenStream::from_str(s).ok()
+    let ts = TokenStream::from_str(s).ok()?;
+    Some(if s.contains(NG) { unmark(ts) } else { ts })
+}
+fn unmark(ts: TokenStream) -> TokenStream {
+    let v: Vec<TokenTree> = ts.into_iter().collect();
+    let mut out: Vec<TokenTree> = Vec::new();
+    let mut i = 0;
+    while i < v.len() {
+        match (&v[i], v.get(i + 1)) {
+            (TokenTree::Ident(id), Some(TokenTree::Group(g))) if id == NG && g.delimiter() == Delimiter::Parenthesis => {
+                out.push(TokenTree::Group(proc_macro2::Group::new(Delimiter::None, unmark(g.stream()))));
+                i += 2;
+            }
+            (TokenTree::Group(g), _) => {
+                out.push(TokenTree::Group(proc_macro2::Group::new(g.delimiter(), unmark(g.stream()))));
+                i += 1;
+            }
+            (t, _) => {
+                out.push(t.clone());
+                i += 1;
+            }
+        }
+    }
+    out.into_iter().collect()
+}
+/// Prints a token stream as request text (None-delimited groups as `__ng( .. )`).
+pub fn print(ts: &TokenStream) -> String {
+    fn has_none(ts: &TokenStream) -> bool {
+        ts.clone().into_iter().any(|t| match t {
+            TokenTree::Group(g) => g.delimiter() == Delimiter::None || has_none(&g.stream()),
+            _ => false,
+        })
+    }
+    fn mark(ts: TokenStream) -> TokenStream {
+        let mut out: Vec<TokenTree> = Vec::new();
+        for t in ts {
+            match t {
+                TokenTree::Group(g) if g.delimiter() == Delimiter::None => {
+                    out.push(TokenTree::Ident(proc_macro2::Ident::new(NG, proc_macro2::Span::call_site())));
+                    out.push(TokenTree::Group(proc_macro2::Group::new(Delimiter::Parenthesis, mark(g.stream()))));
+                }
+                TokenTree::Group(g) => out.push(TokenTree::Group(proc_macro2::Group::new(g.delimiter(), mark(g.stream())))),
+                t => out.push(t),
+            }
+        }
+        out.into_iter().collect()
+    }
+    if has_none(ts) {
+        mark(ts.clone()).to_string()
+    } else {
+        ts.to_string()
+    }
+}
+/// Dissolves None-delimited groups.
+pub fn flatten(ts: TokenStream) -> TokenStream {
+    let mut out: Vec<TokenTree> = Vec::new();
+    for t in ts {
+        match t {
+            TokenTree::Group(g) if g.delimiter() == Delimiter::None => out.extend(flatten(g.stream())),
+            TokenTree::Group(g) => out.push(TokenTree::Group(proc_macro2::Group::new(g.delimiter(), flatten(g.stream())))),
+            t => out.push(t),
+        }
+    }
+    out.into_iter().collect()
 }
